@@ -490,8 +490,13 @@ def main(argv):
         bad_.append(("C08", "C08/sympy-glue/vacuity", f"only {gstats['evaluated']} method calls could be evaluated on both backends"))
     extra = dict(id="C08/sympy-backend", pk="sympy", mod="backend", sig="", status="proved" if not bad_ else "refuted", t=0, cases=1, refuter_points=0, engine_crosschecks=0, obligations=[])
     failed = {oid for p, oid, d in bad_}
+    groups = {}
     for p, oid, d in bad_:
-        extra["obligations"].append(dict(id=oid, kind="value", status="refuted", by="expression identity / numeric replay on the real SymPy backend", t=0, counterexample=dict(detail=d)))
+        groups.setdefault(oid.split("[")[0], []).append((oid, d))
+    for g, items in sorted(groups.items()):      # one reported obligation per kind of failure (first lattice point; the others are listed in the counterexample)
+        oid, d = items[0]
+        extra["obligations"].append(dict(id=oid, kind="value", status="refuted", by="expression identity / numeric replay on the real SymPy backend", t=0,
+                                         counterexample=dict(detail=d, failing_lattice_points=len(items), others=[o for o, _ in items[1:6]])))
     extra["obligations"].append(dict(id="C08/sympy-backend/contracts-evaluated", kind="value", status="proved", by=f"{n_ - len(bad_)} table / glue / replay contracts on the real SymPy backend; method glue: {gstats}", t=0))
     return enginea_prop.run("C08", [], "DESIGN 4/C08", extra_results=res + [extra, cauchy_schwarz_lemma()], t_start=t_start,
                             extra_assumptions=["SymPy's own elementary functions denote the same real functions as NumPy's (trusted)",
